@@ -1,6 +1,6 @@
 (** C07 — the parallel merge is schedule-independent.  Property theorems only. *)
 From Coq Require Import List ZArith Bool.
-From TR Require Import Eng.Engine Eng.Parallel Eng.Timed Spec.C03 Spec.C07 Proofs.EngMerge Proofs.EngParallel Proofs.EngCorollaries.
+From TR Require Import Eng.Engine Eng.Parallel Eng.Timed Spec.C03 Spec.C07 Proofs.EngMerge Proofs.EngParallel Proofs.EngCorollaries Generated.GoMerge Proofs.GoTieMerge.
 Import ListNotations.
 Open Scope Z_scope.
 
@@ -46,3 +46,16 @@ Example C07_example :
   merge_all 2 [mkProbe 2 5 10 false; mkProbe 2 9 20 true; mkProbe 2 6 30 false; mkProbe 1 4 40 false; mkProbe 1 4 90 false]
   = [None; Some (mkProbe 1 4 40 false); Some (mkProbe 2 9 20 true)].
 Proof. reflexivity. Qed.
+
+(** tie kind A, regenerated on every run by tools/goextract/exprs.go: the body of writeProbe in the source (up to `if shouldUpdate`) is the model's [should_update] *)
+Theorem C07_parallel_merge_rule_tied prev p :
+  go_parallel_shouldUpdate (match prev with None => true | Some _ => false end) (is_dest prev) (p_dest p) = should_update prev p.
+Proof. exact (@go_parallel_merge_rule prev p). Qed.
+Print Assumptions C07_parallel_merge_rule_tied.
+
+(** the same for the condition guarding results[probe.TTL] = probe in the serial engine *)
+Theorem C07_serial_merge_rule_tied prev p :
+  go_serial_shouldUpdate (match prev with None => true | Some _ => false end) (is_dest prev) (p_dest p) = should_update prev p.
+Proof. exact (@go_serial_merge_rule prev p). Qed.
+Print Assumptions C07_serial_merge_rule_tied.
+
